@@ -221,6 +221,9 @@ fn curve2(spec: &Curve2Spec, t: &Iso2D, t2: &Iso2D, qs: &[P2], ls: &[f64]) -> Ve
     let tol = tol2(t, scale) + tol2(t2, 0.0);
     let c = &b.curve;
     let tc = c.transformed_by(&iso);
+    if let Err(f) = derived_curve2_consistent("C03/curve2", &tc) {
+        return Verdict::Fail(f);
+    }
     ensure!(tc.count() == c.count(), "C03/curve2/count", "vertex count changed {} -> {}", c.count(), tc.count());
     ensure!(tc.is_closed() == c.is_closed(), "C03/curve2/closedness", "closedness changed");
     ensure!(tc.tol() == c.tol(), "C03/curve2/tol", "tolerance changed");
@@ -318,6 +321,9 @@ fn curve3(spec: &Curve3Spec, t: &Iso3D, t2: &Iso3D, qs: &[P3], ls: &[f64]) -> Ve
     let tol = tol3(t, scale) + tol3(t2, 0.0);
     let c = &b.curve;
     let tc = c.transformed_by(&iso);
+    if let Err(f) = derived_curve3_consistent("C03/curve3", &tc) {
+        return Verdict::Fail(f);
+    }
     ensure!(tc.count() == c.count(), "C03/curve3/count", "vertex count changed");
     ensure!(tc.tol() == c.tol(), "C03/curve3/tol", "tolerance changed");
     ensure!((tc.length() - c.length()).abs() <= tol * c.count() as f64, "C03/curve3/length", "length changed {:e} -> {:e}", c.length(), tc.length());
